@@ -326,3 +326,46 @@ seeded("c13-tofile-skips-lines", ["C13"], [(MX, "            for line in self:\n
 benign("c12-maxlevel-none-test-flipped", ["C12"], [(DX, "self.maxlevel - 1 if self.maxlevel is not None else None", "None if self.maxlevel is None else self.maxlevel - 1")])
 benign("c13-child-guard-nested-ifs", ["C13"], [(MX, "                if filter_(child) and not stop(child):\n                    childname = nodenamefunc(child)\n                    edge = edgefunc(node, child)\n                    yield \"%s%s%s%s\" % (indent, nodename, edge, childname)",
                                                   "                if stop(child):\n                    continue\n                if not filter_(child):\n                    continue\n                childname = nodenamefunc(child)\n                edge = edgefunc(node, child)\n                yield \"%s%s%s%s\" % (indent, nodename, edge, childname)")])
+
+# ------------------------------------------------------------ C14 / C11 / C10
+SE = "anytree/search.py"
+CSE = "anytree/cachedsearch.py"
+seeded("c14-mincount-le", ["C14"], [(SE, "if mincount is not None and resultlen < mincount:", "if mincount is not None and resultlen <= mincount:")], ["F3"])
+seeded("c14-maxcount-ge", ["C14"], [(SE, "if maxcount is not None and resultlen > maxcount:", "if maxcount is not None and resultlen >= maxcount:")], ["F3"])
+seeded("c14-mincount-truthiness", ["C14"], [(SE, "if mincount is not None and resultlen < mincount:", "if mincount and resultlen < mincount:")], ["F3"])
+seeded("c14-cached-drops-maxlevel", ["C14"], [(CSE, "    return search.find(node, filter_=filter_, stop=stop, maxlevel=maxlevel)", "    return search.find(node, filter_=filter_, stop=stop)")], ["F1"])
+seeded("c14-cached-swaps-counts", ["C14"], [(CSE, "return search.findall(node, filter_=filter_, stop=stop, maxlevel=maxlevel, mincount=mincount, maxcount=maxcount)",
+                                             "return search.findall(node, filter_=filter_, stop=stop, maxlevel=maxlevel, mincount=maxcount, maxcount=mincount)")], ["F1"])
+seeded("c14-cached-default-differs", ["C14"], [(CSE, 'def find_by_attr(node, value, name="name", maxlevel=None):', 'def find_by_attr(node, value, name="id", maxlevel=None):')], ["F1"])
+seeded("c14-findall-stop-as-filter", ["C14"], [(SE, "result = tuple(PreOrderIter(node, filter_, stop, maxlevel))", "result = tuple(PreOrderIter(node, filter_, filter_, maxlevel))")], ["F2"])
+seeded("c14-find-maxcount-2", ["C14"], [(SE, "items = _findall(node, filter_, stop=stop, maxlevel=maxlevel, maxcount=1)", "items = _findall(node, filter_, stop=stop, maxlevel=maxlevel, maxcount=2)")], ["F2"])
+seeded("c14-find-by-attr-drops-maxlevel", ["C14"], [(SE, "    return _find(node, filter_=lambda n: _filter_by_name(n, name, value), maxlevel=maxlevel)", "    return _find(node, filter_=lambda n: _filter_by_name(n, name, value))")], ["F2"])
+seeded("c14-attr-filter-no-guard", ["C14"], [(SE, "    try:\n        return getattr(node, name) == value\n    except AttributeError:\n        return False", "    return getattr(node, name) == value")], ["F4"])
+seeded("c14-result-sliced", ["C14"], [(SE, "    return result\n\n\ndef _filter_by_name", "    return result[:maxcount]\n\n\ndef _filter_by_name")], ["F2"])
+benign("c14-bound-orientation-flipped", ["C14"], [(SE, "if mincount is not None and resultlen < mincount:", "if mincount is not None and mincount > resultlen:")])
+benign("c14-cached-positional", ["C14"], [(CSE, "    return search.find(node, filter_=filter_, stop=stop, maxlevel=maxlevel)", "    return search.find(node, filter_, stop, maxlevel)")])
+
+JE = "anytree/exporter/jsonexporter.py"
+JI = "anytree/importer/jsonimporter.py"
+seeded("c11-write-drops-kwargs", ["C11"], [(JE, "return json.dump(data, filehandle, **self.kwargs)", "return json.dump(data, filehandle)")], ["J1"])
+seeded("c11-maxlevel-not-forwarded", ["C11"], [(JE, "        if self.maxlevel is not None:\n            dictexporter.maxlevel = self.maxlevel\n", "")], ["J3", "J2"])
+seeded("c11-maxlevel-truthiness", ["C11"], [(JE, "        if self.maxlevel is not None:\n", "        if self.maxlevel:\n")], ["J3"])
+seeded("c11-read-ignores-kwargs", ["C11"], [(JI, "return self.__import(json.load(filehandle, **self.kwargs))", "return self.__import(json.load(filehandle))")], ["J1"])
+seeded("c11-write-bypasses-export", ["C11"], [(JE, "        data = self._export(node)\n        return json.dump(", "        data = DictExporter().export(node)\n        return json.dump(")], ["J1"])
+seeded("c11-supplied-importer-ignored", ["C11"], [(JI, "dictimporter = self.dictimporter or DictImporter()", "dictimporter = DictImporter()")], ["J3", "J2"])
+benign("c11-export-inline", ["C11"], [(JE, "        data = self._export(node)\n        return json.dumps(data, **self.kwargs)", "        return json.dumps(self._export(node), **self.kwargs)")])
+
+DEX = "anytree/exporter/dictexporter.py"
+DIM = "anytree/importer/dictimporter.py"
+seeded("c10-skip-table-misses-parent", ["C10"], [(DEX, 'if k in ("_NodeMixin__children", "_NodeMixin__parent"):', 'if k in ("_NodeMixin__children",):')], ["X1"])
+seeded("c10-importer-mutates-argument", ["C10"], [(DIM, "        attrs = dict(data)\n", "        attrs = data\n")], ["X2"])
+seeded("c10-importer-reverses-nested-list", ["C10"], [(DIM, "        for child in children:\n", "        children.reverse()\n        for child in children:\n")], ["X2"])
+seeded("c10-level-not-incremented", ["C10"], [(DEX, "self.__export(child, dictcls, attriter, childiter, level=level + 1)", "self.__export(child, dictcls, attriter, childiter, level=level)")], ["X3"])
+seeded("c10-recursion-drops-attriter", ["C10"], [(DEX, "self.__export(child, dictcls, attriter, childiter, level=level + 1)", "self.__export(child, dictcls, self.attriter, childiter, level=level + 1)")], ["X3"])
+seeded("c10-depth-guard-le", ["C10"], [(DEX, "if maxlevel is None or level < maxlevel:", "if maxlevel is None or level <= maxlevel:")], ["X3"])
+seeded("c10-depth-guard-truthiness", ["C10"], [(DEX, "if maxlevel is None or level < maxlevel:", "if not maxlevel or level < maxlevel:")], ["X3"])
+seeded("c10-children-key-always", ["C10"], [(DEX, "            if children:\n                data[\"children\"] = children\n", "            data[\"children\"] = children\n")], ["X4"])
+seeded("c10-childiter-bypassed", ["C10"], [(DEX, "for child in childiter(node.children)", "for child in node.children")], ["X3"])
+seeded("c10-import-children-reversed", ["C10"], [(DIM, "        for child in children:\n", "        for child in reversed(children):\n")], ["X5"])
+seeded("c10-import-parent-not-passed", ["C10"], [(DIM, "self.__import(child, parent=node)", "self.__import(child, parent=parent)")], ["X5"])
+benign("c10-copy-via-copy-method", ["C10"], [(DIM, "        attrs = dict(data)\n", "        attrs = data.copy()\n")])
